@@ -15,6 +15,17 @@ CHECKS = {
         note="Trusted: Coq kernel+VM, MathComp/SsrMultinomials, harness (generators, observation, literal encoding). "
              "Modelled not verified: numpy broadcasting/unique/tile, the Cython multiply kernel (as set-or-accumulate by key). "
              "Not covered: float rounding, int64 overflow, out=/where= arguments, array-valued exponents of ** (see DESIGN)."),
+    "C14": dict(
+        technique="Coq proof: invariant by nested induction over user programs of a state-machine model whose "
+                  "behaviour flags are regenerated from option.py by an ast translator (bridge lemma) + exhaustive "
+                  "bounded histories run on /repo and on the model",
+        text="Theorems (Props/P_C14.v): for every reachable state and every nested block body, leaving a "
+             "global_options block (normally or by exception) restores the complete previous option set; inside, "
+             "exactly the given options differ; an unknown key gives KeyError with nothing changed and no block "
+             "entered; get_options results are detached; defaults and key set never change. Bridge lemma: the code "
+             "facts extracted from the current option.py equal the ones the theorems assume.",
+        note="Trusted: Coq kernel+VM, the ast translator (shape recognition of option.py), contextlib semantics, "
+             "single-threaded use. Correspondence is exhaustive for nested programs up to 3 (quick) / 4 (thorough, sampled above 60k) nodes."),
 }
 
 
@@ -37,7 +48,7 @@ def main():
           for p in props if p not in CHECKS]
     man = {
         "version": 1,
-        "setup_cmd": "cd /verif/coq && coq_makefile -f _CoqProject -o Makefile && timeout 3000 make -j16",
+        "setup_cmd": "cd /verif && ./check setup",
         "hooks": {
             "guard": "NUMPOLY_VERIF",
             "enable": "harness-side only: /verif/check exports NUMPOLY_VERIF=1 and wraps numpoly.ndpoly.__new__ / "
